@@ -115,6 +115,10 @@ def describe(e: dict, rec: dict) -> str:
 def e2e_events(ctx: Ctx) -> list[tuple[dict, dict]]:
     cfgs = ad.e2e_configs(ctx.quick)
     runs = ad.run_many(cfgs, timeout=600, parallel=5)
+    # a run that did not finish (machine overloaded) is repeated once, alone
+    for i, r in enumerate(runs):
+        if r["hung"] or not any(e["ev"] == "Return" for e in r["events"]):
+            runs[i] = ad.run_many([cfgs[i]], timeout=600, parallel=1)[0]
     good = 0
     out = []
     undecided = 0
@@ -154,7 +158,8 @@ def e2e_events(ctx: Ctx) -> list[tuple[dict, dict]]:
 
 
 def run(ctx: Ctx) -> None:
-    ctx.rule = ("case = (a) one kill map (<= 4 assertions x 4 mutants, all of them in the thorough tier) through the "
+    ctx.rule = ("case = (a) one kill map (all <= 4 assertions x 3 mutants in the quick tier, all <= 4 x 4 in the thorough "
+                "tier, plus 32 prune-critical maps 5x7..7x9 of SetCoverCritical.tla) through the "
                 "real selection function and through the real _handle_add_assertions, (b) one mutation-analysis "
                 "outcome with mutant kinds ok/timeout/invalid, exceptions, time budget, 1-2 test cases, both removal "
                 "modes, both executor kinds (exhaustive small + TLC -simulate), (c) one (created, killed, timeout, "
@@ -178,17 +183,25 @@ def run(ctx: Ctx) -> None:
     if ctx.quick:
         ctx.design("SetCover", workers=4)
     else:
+        ctx.design("SetCover", workers=4)
         ctx.design("SetCover", "SetCover_thorough.cfg", coverage_actions=["Pick", "Prune", "Remove"])
         ctx.design("SetCover", "SetCover_full.cfg")
         r = ctx.design("SetCover", "SetCover_hazard.cfg", expect_ok=False)
         ctx.notes["design_forward_removal_violates"] = sorted({v.name for v in r.violations})
         if "KillsPreserved" not in {v.name for v in r.violations}:
             raise MachineryError("SetCover_hazard.cfg should violate KillsPreserved")
+        ctx.design("SetCover", "SetCover_critical.cfg")
+        r = ctx.design("SetCover", "SetCover_stale.cfg", expect_ok=False)
+        ctx.notes["design_stale_pruning_violates_on_critical_maps"] = sorted({v.name for v in r.violations})
+        if "KillsPreserved" not in {v.name for v in r.violations}:
+            raise MachineryError("SetCover_stale.cfg should violate KillsPreserved")
     # ---------------------------------------------------------------- P2
     behs = [ad.normalise(b) for b in
             ctx.behaviours("MC_SetCover", "MC_SetCover.cfg" if ctx.quick else "MC_SetCover_thorough.cfg")]
     n_exh = len(behs)
-    for st in ctx.simulate("MC_SetCover", "MC_SetCover_sim.cfg", num=200 if ctx.quick else 4000, depth=24):
+    if n_exh != ctx.tlc_runs[-1]["distinct"]:
+        raise MachineryError(f"behaviour extraction lost lines: {n_exh} parsed, {ctx.tlc_runs[-1]['distinct']} states")
+    for st in ctx.simulate("MC_SetCover", "MC_SetCover_sim.cfg", num=150 if ctx.quick else 4000, depth=24):
         b = ad.normalise(st["b"])
         if st["todo"] == "kind" and len(b["kind"]) == b["nM"]:
             behs.append(b)
@@ -199,7 +212,7 @@ def run(ctx: Ctx) -> None:
     pairs: list[tuple[dict, dict]] = []
     for i, b in enumerate(behs):
         evs = p2_events(b)
-        if ctx.quick and b["mode"] == "map" and i % 2:
+        if ctx.quick and b["mode"] == "map" and i % 2 and b["nA"][0] <= 4:
             evs = evs[:1]  # quick tier: every kill map through the selection, every second one through the wide entry
         pairs.extend(evs)
     n_p2 = len(pairs)
